@@ -33,12 +33,12 @@ func c03Fixed() [][]*canon.Node {
 				// the same inside a let that binds e outside, reading e afterwards
 				out = append(out, []*canon.Node{l(s("let"), l(s("e"), k("outer")), l(s("list"), l(t...), s("e")))})
 			}
-			add(tr(canon.In(1)))                                             // normal
-			add(tr(k("body")), throw, tr(k("not-reached")))                  // uncaught
-			add(throw, l(s("catch"), s("e"), tr(k("handler")), s("e")))      // caught, handler returns the caught value
-			add(throw, l(s("catch"), s("e"), l(s("throw"), s("e"))))         // handler rethrows
-			add(throw, l(s("catch"), s("e"), l(s("throw"), l(s("list"), s("e"), s("e"))))) // handler throws another
-			add(throw, l(s("catch"), s("e"), l(l(s("fn"), l(s("z")), tr(k("tail")), s("z")), s("e")))) // handler tail call
+			add(tr(canon.In(1)))                                                                                   // normal
+			add(tr(k("body")), throw, tr(k("not-reached")))                                                        // uncaught
+			add(throw, l(s("catch"), s("e"), tr(k("handler")), s("e")))                                            // caught, handler returns the caught value
+			add(throw, l(s("catch"), s("e"), l(s("throw"), s("e"))))                                               // handler rethrows
+			add(throw, l(s("catch"), s("e"), l(s("throw"), l(s("list"), s("e"), s("e")))))                         // handler throws another
+			add(throw, l(s("catch"), s("e"), l(l(s("fn"), l(s("z")), tr(k("tail")), s("z")), s("e"))))             // handler tail call
 			add(l(s("try"), throw, l(s("catch"), s("e"), l(s("throw"), s("e")))), l(s("catch"), s("e2"), s("e2"))) // nested rethrow
 		}
 	}
@@ -69,9 +69,9 @@ func runC03(c *fw.Ctx) {
 
 func init() {
 	fw.Register(&fw.Property{
-		ID:  "C03",
-		Run: runC03,
-		Rule: "deterministic probes (8 thrown objects incl. call-shaped lists, symbols, maps/vectors of calls x 7 paths x {no finally, finally, finally reading the catch symbol} x {bare, inside a let binding the catch symbol outside}) plus seeded typed programs nesting try/catch/finally with throws in bodies, callees 1-3 frames down, inside map/apply, in handlers and next to finally, Go errors returned and panicked by harness builtins bound through lib/call; result, error class, thrown value (ErrorValue, structural), errors.Is for Go sentinels and the ordered trace are compared with the reference interpreter; distinct = program skeletons with non-empty trace",
+		ID:     "C03",
+		Run:    runC03,
+		Rule:   "deterministic probes (8 thrown objects incl. call-shaped lists, symbols, maps/vectors of calls x 7 paths x {no finally, finally, finally reading the catch symbol} x {bare, inside a let binding the catch symbol outside}) plus seeded typed programs nesting try/catch/finally with throws in bodies, callees 1-3 frames down, inside map/apply, in handlers and next to finally, Go errors returned and panicked by harness builtins bound through lib/call; result, error class, thrown value (ErrorValue, structural), errors.Is for Go sentinels and the ordered trace are compared with the reference interpreter; distinct = program skeletons with non-empty trace",
 		Assume: []string{"refmal's try semantics are written from the statement: handler value returned not re-evaluated, catch variable scoped to the handler, finally once after body/handler in the try's own scope with its own outcome ignored", "the representation of an error object raised by a builtin and bound to a catch variable is left open (matched as wildcard: error object or message string)"},
 		Finish: func(m *fw.Merged) {
 			m.Floor("programs", 10000)
